@@ -3,6 +3,14 @@
 import json
 props=[json.loads(l) for l in open('/verif/properties.jsonl')]
 claimed={
+ "C02": ("fresh id per call from the one shared client counter, normalised to the wire form; every proxy shares the one client; request registered in the in-flight table under its own id before it is written; response looked up by its id, delivered exactly once to that entry's own mailbox, with the frame's fields unchanged, and exactly that key removed; response id equals request id on all three transports; each dequeued frame dispatched at most once, to exactly one handler; server replies echo the request id.",
+         "'returns exactly once' as liveness and scheduling fairness are not decided; idCtr < 2^53 so float64 conversion is injective; the benign double delivery when closeInFlight races handleResponse's delete is outside the claim.", "5.2"),
+ "C03": ("safety core: every I/O call may fail at each call site; the link is flagged unusable before tryReconnect on both loss paths; tryReconnect fails every in-flight call with the temporary error (range-visited invariant: all entries) before the table is reset, and never clears the flag itself; the flag is cleared only under both locks together with installing the new connection; requests dequeued while flagged down get exactly one local failure and are never registered; no dequeued request is dropped without completion or registration; the connection loop exits only for a stated cause and then fails calls, closes sinks and cancels; read deadline armed before every read.",
+         "that a blocked caller is eventually woken (progress), byte-exact fault positions and stall detection times are not decided; ownership of the reader channel (only the single reader goroutine closes it) is an assumed protocol precondition checked at the spawn sites.", "5.3"),
+ "C04": ("retry loop: a second sendRequest happens only if the function is retry-tagged, the previous answer carried the temporary-connection code, and after a backoff sleep; retry/notify flags come from the tags only; one proxy per struct field; notification requests carry no id and get one local completion; each frame dispatched once, one handler goroutine per call, doCall at most once per handle and never after a rejection; closeInFlight/closeChans/tryReconnect never send requests; HTTP requests are POSTs not marked idempotent (net/http would replay them).",
+         "the transport delivers each written frame at most once (TCP/WebSocket/HTTP: external).", "5.4"),
+ "C05": ("backoff.next result within [minDelay,maxDelay] for every attempt (reals + Go's float-to-int conversion rule); every dial in the redial loop is preceded by a sleep of next(attempts); attempts monotone; no dial factory => tryReconnect returns false and touches nothing; no-reconnect option drops the factory; state reset (flag cleared, pings restarted, reader restarted) only with a new connection under the write lock; retry loop gating and spacing; loop exits only for a stated cause (a peer close frame is not one).",
+         "'eventually reconnects / eventually returns a genuine result' (liveness) is not decided; floats are treated as reals; configuration precondition 0 <= minDelay <= maxDelay.", "5.5"),
  "C09": ("handleReader output-token automaton (empty / one value / well-formed array) with loop invariant; handle: at most one reply, exactly one for id-bearing requests, none from handle when the channel forwarder answers; id echo and version on every constructed response; result XOR error in response.MarshalJSON; error codes tied to causes; no handler run on protocol errors; WS writer selection iff id.",
          "JSON syntax inside each encoded value is encoding/json's (assumed: one Encode = one complete value); handler results are serialisable; function-typed parameters (writer providers, rpcError) obey their function-type contracts, each concrete one verified separately.", "5.9"),
  "C10": ("zero-annotation no-panic sweep (index, slice, nil map write, nil deref of module structs, unchecked type assertion, unhashable map key, close of closed/nil channel, make with negative size, explicit panic) over every function reachable from peer bytes outside doCall's recover, under object invariants that are themselves obligations; size limit: reject exactly above the limit, never run a handler on an oversize body.",
